@@ -86,6 +86,10 @@ DecState(t, b, p) ==
   CASE t.k = "lc" -> IF p + 8 > Len(b) THEN Short
                      ELSE IF SubSeq(b, p + 1, p + 8) # <<1, 0, 0, 0, 0, 0, 0, 0>> THEN Bad
                      ELSE DecState(t.e, b, p + 8)
+    \* JSON transferred as strings: serialization version 1
+    [] t.k = "json" -> IF p + 8 > Len(b) THEN Short
+                       ELSE IF SubSeq(b, p + 1, p + 8) # <<1, 0, 0, 0, 0, 0, 0, 0>> THEN Bad
+                       ELSE OK(<<>>, p + 8)
     [] t.k \in {"array", "nullable"} -> DecState(t.e, b, p)
     [] t.k = "map" -> DecStates(<<t.key, t.val>>, b, p)
     [] t.k = "tuple" -> DecStates(t.es, b, p)
@@ -126,7 +130,7 @@ DecCol(t, n, b, p) ==
     [] t.k = "fstring" -> FixedRun(b, p, n, t.n)
     [] t.k = "uuid" -> LET r == FixedRun(b, p, n, 16) IN
                        IF ~r.ok THEN r ELSE OK(AsTuple([i \in 1..n |-> Rev(SubSeq(r.v[i], 1, 8)) \o Rev(SubSeq(r.v[i], 9, 16))]), r.p)
-    [] t.k = "string" -> StrRun(b, p, n, <<>>)
+    [] t.k \in {"string", "json"} -> StrRun(b, p, n, <<>>)
     \* an enum whose values are names on the client's side: the wire carries the numbers of the definition
     [] t.k = "enum" -> LET r == FixedRun(b, p, n, t.w) IN
                        IF ~r.ok THEN r
@@ -183,6 +187,7 @@ Flat(ss) == LET RECURSIVE F(_) F(i) == IF i > Len(ss) THEN <<>> ELSE ss[i] \o F(
 EncState(t) ==
   LET RECURSIVE S(_)
       S(u) == CASE u.k = "lc" -> <<1, 0, 0, 0, 0, 0, 0, 0>> \o S(u.e)
+                [] u.k = "json" -> <<1, 0, 0, 0, 0, 0, 0, 0>>
                 [] u.k \in {"array", "nullable"} -> S(u.e)
                 [] u.k = "map" -> S(u.key) \o S(u.val)
                 [] u.k = "tuple" -> Flat([i \in 1..Len(u.es) |-> S(u.es[i])])
@@ -204,7 +209,7 @@ EncCol(t, vals) ==
   LET n == Len(vals) IN
   CASE t.k \in {"fixed", "fstring", "bool"} -> Flat(vals)
     [] t.k = "uuid" -> Flat([i \in 1..n |-> Rev(SubSeq(vals[i], 1, 8)) \o Rev(SubSeq(vals[i], 9, 16))])
-    [] t.k = "string" -> Flat([i \in 1..n |-> EncStr(vals[i])])
+    [] t.k \in {"string", "json"} -> Flat([i \in 1..n |-> EncStr(vals[i])])
     [] t.k = "enum" -> Flat([i \in 1..n |-> t.raws[CHOOSE j \in 1..Len(t.names) : t.names[j] = vals[i]]])
     [] t.k = "nothing" -> [i \in 1..n |-> 0]
     [] t.k = "point" -> Flat([i \in 1..n |-> vals[i][1]]) \o Flat([i \in 1..n |-> vals[i][2]])
